@@ -1,3 +1,5 @@
 import DracoProps.C17
 import DracoProps.C16
 import DracoProps.C07
+import DracoProps.C04
+import DracoProps.C12
